@@ -1,4 +1,53 @@
-//! Smaller harness families: serial output (C18), cartridge header (C19), debugger strings (C20), video leaf functions (C15).
+//! Smaller harness families: serial output (C18), cartridge header (C19), debugger strings (C20), video leaf functions (C15),
+//! interrupt dispatch twin (C07).
+
+/// C07 reference model, written from the property statement; shared by the Kani harness and the native replay.
+pub struct IrqIn { pub if0: u8, pub ie0: u8, pub ime: u8, pub rs: u8, pub sp0: u16, pub pc0: u16, pub cyc0: u32, pub pairs: [u32; 4] }
+pub struct IrqOut { pub sp: u32, pub pc: u32, pub cyc: u32, pub pairs: [u32; 4], pub if1: u8, pub ie1: u8, pub ime: u8, pub rs: u8, pub nw: usize, pub w0: (u16, u8), pub w1: (u16, u8) }
+pub const IRQ_NAMES: [&str; 11] = [
+  "C07: nothing requested-and-enabled: nothing changes",
+  "C07: a pending interrupt resumes a halted or stopped CPU",
+  "C07: master enable off: IF, IE, PC, SP, memory unchanged",
+  "C07: dispatch resumes the CPU and clears the master enable",
+  "C07: PC is pushed high byte first at SP-1, then the low byte at SP-2",
+  "C07: SP decreases by two modulo 2^16",
+  "C07: jumps to the vector of the highest-priority pending source (0x0000 if the push cancelled them all)",
+  "C07: only the IF bit of the dispatched source is cleared (none on cancellation)",
+  "C07: IE unchanged except by the push itself",
+  "C07: five machine cycles are charged",
+  "C07: AF, BC, DE, HL unchanged" ];
+/// ime / rs encoding: 0 = Enabled / Run, 1 = Disabled / Stop, 2 = EnableNext / Halt
+pub fn irq_verdicts(i: &IrqIn, o: &IrqOut) -> [bool; 11] {
+  let mut v = [true; 11];
+  let pending = i.if0 & i.ie0;
+  let regs_same = o.pairs == i.pairs;
+  if pending == 0 {
+    v[0] = o.rs == i.rs && o.ime == i.ime && o.sp == i.sp0 as u32 && o.pc == i.pc0 as u32 && o.cyc == i.cyc0 && o.if1 == i.if0 && o.ie1 == i.ie0 && o.nw == 0 && regs_same;
+  } else if i.ime != 0 {
+    v[1] = o.rs == 0;
+    v[2] = o.ime == i.ime && o.sp == i.sp0 as u32 && o.pc == i.pc0 as u32 && o.cyc == i.cyc0 && o.if1 == i.if0 && o.ie1 == i.ie0 && o.nw == 0 && regs_same;
+  } else {
+    let sp1 = i.sp0.wrapping_sub(1); let sp2 = i.sp0.wrapping_sub(2);
+    let (pch, pcl) = ((i.pc0 >> 8) as u8, i.pc0 as u8);
+    // bus contract (C10) for the two registers a push can hit: 0xFFFF sets IE, 0xFF0F sets IF (five bits each)
+    let ie_mid = if sp1 == 0xffff { pch & 0x1f } else { i.ie0 };
+    let if_mid = if sp1 == 0xff0f { pch & 0x1f } else { i.if0 };
+    let p_mid = if_mid & ie_mid;                    // sampled between the two writes
+    let ie_end = if sp2 == 0xffff { pcl & 0x1f } else { ie_mid };
+    let if_after_push = if sp2 == 0xff0f { pcl & 0x1f } else { if_mid };
+    let (vector, bit): (u32, u8) = if p_mid == 0 { (0, 0) } else if p_mid & 1 != 0 { (0x40, 1) } else if p_mid & 2 != 0 { (0x48, 2) }
+      else if p_mid & 4 != 0 { (0x50, 4) } else if p_mid & 8 != 0 { (0x58, 8) } else { (0x60, 16) };
+    v[3] = o.rs == 0 && o.ime == 1;
+    v[4] = o.nw == 2 && o.w0 == (sp1, pch) && o.w1 == (sp2, pcl);
+    v[5] = o.sp == sp2 as u32;
+    v[6] = o.pc == vector;
+    v[7] = o.if1 == if_after_push & !bit;
+    v[8] = o.ie1 == ie_end;
+    v[9] = o.cyc == i.cyc0 + 5;
+    v[10] = regs_same;
+  }
+  v
+}
 #[cfg(all(kani, feature = "h_misc"))]
 pub mod harnesses {
   use std::io::{self, Write};
@@ -161,5 +210,75 @@ pub mod harnesses {
     let s = match core::str::from_utf8(&bytes[..len]) { Ok(s) => s, Err(_) => return };
     let r = crate::debug::command::parse_address(s);
     assert!(r == spec_dec(&bytes[..len]), "C20: decimal parses to exactly its value, malformed / out of range rejected");
+  }
+
+  // ------------------------------------------------------------------ C07: Core::handle_interrupt (loop-free twin of the Verus contract)
+  // The bus is replaced by a stub that implements exactly the part of the bus contract (C10) a push can interact with:
+  // a write to 0xFFFF sets IE, a write to 0xFF0F sets IF (5 bits each), every write is logged.
+  use crate::emulator::{Core, InterruptState, RunState};
+  use crate::devices::interrupts::InterruptFlag;
+  static mut IRQ_CORE: *mut Core = core::ptr::null_mut();
+  static mut WLOG: [(u16, u8); 4] = [(0, 0); 4];
+  static mut NW: usize = 0;
+  extern "sysv64" fn irq_stub_write(_a: *mut crate::mem::MemoryAreas, addr: u16, value: u8) {
+    unsafe {
+      if NW < 4 { WLOG[NW] = (addr, value); }
+      NW += 1;
+      let core = &mut *IRQ_CORE;
+      if addr == 0xffff { core.memory.io.interrupt_mask = value & 0x1f; }
+      if addr == 0xff0f { core.memory.io.interrupt_flag = InterruptFlag::new(value & 0x1f); }
+    }
+  }
+  fn lcd_stub() -> crate::devices::video::lcd::LCD { crate::devices::video::lcd::LCD::verif_empty() }
+
+  #[kani::proof]
+  #[kani::stub(crate::mem::memory_write_byte, irq_stub_write)]
+  #[kani::stub(crate::devices::video::lcd::LCD::new, lcd_stub)]
+  fn irq_dispatch() {
+    let mut io = crate::devices::io::IO::new();
+    let if0: u8 = kani::any::<u8>() & 0x1f; let ie0: u8 = kani::any::<u8>() & 0x1f;
+    io.interrupt_flag = InterruptFlag::new(if0); io.interrupt_mask = ie0;
+    let (sp0, pc0): (u16, u16) = (kani::any(), kani::any());
+    let cyc0: u8 = kani::any();
+    let ime_sel: u8 = kani::any(); let rs_sel: u8 = kani::any();
+    kani::assume(ime_sel < 3 && rs_sel < 3);
+    let mut regs = crate::cpu::Registers::new();
+    regs.sp = sp0 as u32; regs.ip = pc0 as u32; regs.cycles = cyc0 as u32;
+    regs.af = kani::any::<u16>() as u32; regs.bc = kani::any::<u16>() as u32; regs.de = kani::any::<u16>() as u32; regs.hl = kani::any::<u16>() as u32;
+    let (af0, bc0, de0, hl0) = (regs.af, regs.bc, regs.de, regs.hl);
+    let mut core = Core {
+      cache: crate::cache::CodeCache::verif_empty(), registers: regs, last_block_cycle_length: 0,
+      memory: crate::mem::MemoryAreas::verif_with_io(io),
+      interrupts_enabled: match ime_sel { 0 => InterruptState::Enabled, 1 => InterruptState::Disabled, _ => InterruptState::EnableNext },
+      run_state: match rs_sel { 0 => RunState::Run, 1 => RunState::Stop, _ => RunState::Halt },
+    };
+    unsafe { IRQ_CORE = &mut core as *mut Core; NW = 0; }
+    core.handle_interrupt();
+    let (sp, pc, cyc) = (core.registers.sp, core.registers.ip, core.registers.cycles);
+    let (af, bc, de, hl) = (core.registers.af, core.registers.bc, core.registers.de, core.registers.hl);
+    let if1 = core.memory.io.interrupt_flag.as_u8(); let ie1 = core.memory.io.interrupt_mask;
+    let (nw, w0, w1) = unsafe { (NW, WLOG[0], WLOG[1]) };
+    let ime1 = match core.interrupts_enabled { InterruptState::Enabled => 0u8, InterruptState::Disabled => 1, InterruptState::EnableNext => 2 };
+    let rs1 = match core.run_state { RunState::Run => 0u8, RunState::Stop => 1, RunState::Halt => 2 };
+    core::mem::forget(core);
+
+    let i = super::IrqIn { if0, ie0, ime: ime_sel, rs: rs_sel, sp0, pc0, cyc0: cyc0 as u32, pairs: [af0, bc0, de0, hl0] };
+    let o = super::IrqOut { sp, pc, cyc, pairs: [af, bc, de, hl], if1, ie1, ime: ime1, rs: rs1, nw, w0, w1 };
+    let v = super::irq_verdicts(&i, &o);
+    let sel: u8 = kani::any();
+    match sel {
+      0 => assert!(v[0], "C07: nothing requested-and-enabled: nothing changes"),
+      1 => assert!(v[1], "C07: a pending interrupt resumes a halted or stopped CPU"),
+      2 => assert!(v[2], "C07: master enable off: IF, IE, PC, SP, memory unchanged"),
+      3 => assert!(v[3], "C07: dispatch resumes the CPU and clears the master enable"),
+      4 => assert!(v[4], "C07: PC is pushed high byte first at SP-1, then the low byte at SP-2"),
+      5 => assert!(v[5], "C07: SP decreases by two modulo 2^16"),
+      6 => assert!(v[6], "C07: jumps to the vector of the highest-priority pending source (0x0000 if the push cancelled them all)"),
+      7 => assert!(v[7], "C07: only the IF bit of the dispatched source is cleared (none on cancellation)"),
+      8 => assert!(v[8], "C07: IE unchanged except by the push itself"),
+      9 => assert!(v[9], "C07: five machine cycles are charged"),
+      10 => assert!(v[10], "C07: AF, BC, DE, HL unchanged"),
+      _ => { kani::cover!(if0 & ie0 != 0 && ime_sel == 0, "reachable: dispatch"); kani::cover!(if0 & ie0 == 0, "reachable: nothing pending"); },
+    }
   }
 }
